@@ -50,6 +50,7 @@ func TestC04(t *testing.T) {
 				c.Count("helper_conflict_retries", o.Retries)
 				c.Count("uwc_ok", cov.UwcOK)
 				c.Count("uwc_noop", cov.UwcNoop)
+				c.Count("uwc_idempotent", cov.UwcIdem)
 				c.Count("modify_create", cov.ModifyCreate)
 				c.Count("modify_update", cov.ModifyUpdate)
 				c.Count("errors_checked_no_effect", cov.ErrNoEffect)
